@@ -1,0 +1,40 @@
+//go:build verif
+
+package couchbase
+
+import (
+	"github.com/couchbase/gocbcore/v10"
+
+	"github.com/Trendyol/go-dcp/wrapper"
+)
+
+// VerifReplica is one slot of the per-vBucket table rollback mitigation keeps (active copy and replicas).
+type VerifReplica struct {
+	UUID   uint64
+	Seq    uint64
+	Absent bool
+}
+
+// VerifMinSeqNo runs the unexported getMinSeqNo on the given table. Only built with the verif tag.
+func VerifMinSeqNo(reps []VerifReplica) uint64 {
+	r := &rollbackMitigation{persistedSeqNos: wrapper.CreateConcurrentSwissMap[uint16, []*vbUUIDAndSeqNo](4)}
+	l := make([]*vbUUIDAndSeqNo, len(reps))
+	for i, x := range reps {
+		l[i] = &vbUUIDAndSeqNo{vbUUID: gocbcore.VbUUID(x.UUID), seqNo: gocbcore.SeqNo(x.Seq), absent: x.Absent}
+	}
+	r.persistedSeqNos.Store(0, l)
+	return uint64(r.getMinSeqNo(0))
+}
+
+// VerifParseVersion runs the unexported nodeVersionFromString.
+func VerifParseVersion(s string) (*Version, error) { return nodeVersionFromString(s) }
+
+// VerifCheckpointID runs the unexported getCheckpointID; ok is false when it refuses the group name (it panics).
+func VerifCheckpointID(vbID uint16, groupName string) (id string, ok bool) {
+	defer func() {
+		if recover() != nil {
+			id, ok = "", false
+		}
+	}()
+	return string(getCheckpointID(vbID, groupName)), true
+}
